@@ -76,6 +76,37 @@ Theorem C20_type_exposes_value_and_type pm e :
 Proof. exact (type_exposes_value_and_type pm e). Qed.
 Print Assumptions C20_type_exposes_value_and_type.
 
+(* ... also when the record's path is EMPTY: a type error on the document itself (root), or the first branch of a oneOf /
+   anyOf whose own `type` fails (the path of a context record is relative to its parent, and a combinator record is
+   translated as its first context record).  InvalidTypeError then builds its message without a key - and exposes the
+   offending value and the expected type all the same *)
+Theorem C20_type_keyless_exposes_value_and_type pm e :
+  wf_verr pm e = true -> v_kind e = VType -> v_path e = [] ->
+  exists t ts,
+    v_sty e = Some t /\ type_decl t = Some ts /\
+    process_error e = Lib (EInvalidType (v_inst e) t (m_type false)) /\
+    existsb (has_type (v_inst e)) ts = false.
+Proof. exact (type_keyless_exposes_value_and_type pm e). Qed.
+Print Assumptions C20_type_keyless_exposes_value_and_type.
+
+Theorem C20_combinator_translates_first_context e c rest :
+  (v_kind e = VOneOf \/ v_kind e = VAnyOf) -> v_ctx e = c :: rest -> process_error e = process_error c.
+Proof. exact (combinator_translates_first_context e c rest). Qed.
+Print Assumptions C20_combinator_translates_first_context.
+
+(* non-vacuity: validate([1], {"type": "object"}) - the document itself is an array; and an anyOf under the key "a" whose
+   first branch is {"type": ["integer", "null"]}: the context record has the empty (relative) path *)
+Example C20_type_keyless_example :
+  let root := VErr VType (JStr (codes "object")) (JArr [JInt 1]) (Some (JStr (codes "object"))) [] false [] [] [] [] in
+  let tl := JArr [JStr (codes "integer"); JStr (codes "null")] in
+  let branch := VErr VType tl (JStr (codes "x")) (Some tl) [] false [] [] [] [] in
+  let any := VErr VAnyOf (JArr []) (JStr (codes "x")) None [] false [] [PKey (codes "a")] [] [branch; root] in
+  wf_verr (fun _ _ => false) root = true /\
+  process_error root = Lib (EInvalidType (JArr [JInt 1]) (JStr (codes "object")) (m_type false)) /\
+  wf_verr (fun _ _ => false) any = true /\
+  process_error any = Lib (EInvalidType (JStr (codes "x")) tl (m_type false)).
+Proof. vm_compute. repeat split; reflexivity. Qed.
+
 (* the regular expression of process_error, run on the message jsonschema builds from identifier-like keys, returns
    exactly those keys (for every list of keys) *)
 Theorem C20_findall_addl_message ks : forallb ident ks = true -> findall_keys (addl_message ks) = ks.
